@@ -6,7 +6,7 @@ from vf.ch import Ob
 ASSUMPTIONS = PIPE_ASSUME + ["catalog/clauses.json (33 clauses, frozen from the pinned commit and reviewed against README / tests) documents key and value of each clause"]
 OUTSIDE = ["clauses of different dialects combined in one statement", "two clauses writing the same key", "clause values that are expressions; input.regex SERDE properties",
            "the recorded finding: ORGANIZATION INDEX after TABLESPACE / STORAGE"]
-NCL = 39
+NCL = 40
 MODES = ["hql", "mysql", "oracle", "redshift", "snowflake", "mssql", "bigquery", "postgres", "spark_sql", "ibm_db2"]
 
 
